@@ -1,7 +1,7 @@
 """C07 — k-mer/index conversion is the base-4 bijection, consistent with revcomp."""
 import itertools
 
-from core import hx, exc_kind
+from core import hx, exc_kind, safe_check
 
 PROPS = ('GambitV.Props.C07', 'GambitV.C07')
 TIE = [('GambitV.Tie.Kmers', 'GambitV.Tie.Kmers')]
@@ -56,7 +56,8 @@ def run(ctx):
 	kmax = ctx.q(6, 8)
 
 	def sub(case, tag):
-		ctx.submit(case, check(ctx, case), nontrivial=(case.get('hex', 'x') != ''), tags=[tag])
+		lines, pf = safe_check(check, ctx, case)
+		ctx.submit(case, lines, nontrivial=(case.get('hex', 'x') != ''), tags=[tag], pyfails=pf)
 
 	# exhaustive: all k-mers over ACGT, k <= kmax
 	for k in range(0, kmax + 1):
